@@ -149,6 +149,13 @@ class Report:
             lines.append("KNOWN-FINDING: property=%s %s [%s]" % (self.pid, kf[(self.pid, fp)]["what"], fp))
         seen_fp = set()
         rdir = os.path.join(VERIF, "replays", self.pid)
+        if write_evidence and os.path.isdir(rdir):
+            for fn in os.listdir(rdir):
+                if fn.endswith(".json"):
+                    os.unlink(os.path.join(rdir, fn))
+        all_fp = sorted(set(v["fp"] for v in new_viol))
+        if len(all_fp) > 15:
+            lines.append("  (%d distinct violation fingerprints; replay files for the first 15) all: %s" % (len(all_fp), "; ".join(all_fp)))
         for v in new_viol:
             # one replay file and one VIOLATION line per distinct fingerprint (first = simplest case)
             if v["fp"] in seen_fp or len(seen_fp) >= 15:
